@@ -105,19 +105,28 @@ func Open(dir string, config Config) (*DB, error) {
 
 func (db *DB) Close() {
 	defer atomic.StoreUint32(&db.state, uint32(StateClosed))
-	verifhook.At("cl.signal.pre")
-	db.closeC <- struct{}{}
-	verifhook.At("cl.signal")
-
+	// hand the active memtable to the flusher behind the memtables that are already queued.
+	// Tables must be written in rotation order: a wal that is still on disk after a crash is
+	// replayed into the memtable, and the memtable takes precedence over the tables, so no
+	// table may hold newer versions than a wal that outlives it.
 	mt := db.memtable
-	mt.freeze()
 	if mt.size() > 0 {
-		db.flushImmutable(mt)
+		db.mu.Lock()
+		mt.freeze()
+		db.immutables.PushBack(mt)
+		db.mu.Unlock()
+
+		db.flushC <- mt
 	} else {
+		mt.freeze()
 		if err := mt.wal.Delete(); err != nil {
 			db.logger.Warnf("failed to delete immutable wal file: %v", err)
 		}
 	}
+
+	verifhook.At("cl.signal.pre")
+	db.closeC <- struct{}{}
+	verifhook.At("cl.signal")
 
 	verifhook.At("cl.flushed")
 	<-db.closed
